@@ -95,7 +95,8 @@ CHECKS = {
     "C16": dict(engine="server_mc", cat="model_checking",
                 tech="controlled-scheduler exploration of the real acceptor/worker threads at checkpoints (hook H2): exhaustive BFS of a shadow model, every maximal schedule replayed against the implementation",
                 text="All orderings of checkpoint releases and environment actions (connect, send, open gate, shutdown call, late connect) for "
-                     "1-2 workers x 1-3 clients x <=2 requests per connection x {Graceful generous, Graceful short, Forced}; every model "
+                     "1-2 workers x 1-3 clients x <=2 requests per connection x {Graceful generous, Graceful short, Forced}, plus bulk "
+                     "configurations (9-31 interchangeable connections filling the worker queues, symmetry-reduced and phased); every model "
                      "schedule is executed on a fresh real server and every predicted event is awaited and compared (trace validation); "
                      "oracle on observed facts: requests received before the call are answered, no accept after the call, resolution times.",
                 ref="§4 C16, Appendix C", note="Interleavings inside tokio/hyper/kernel below checkpoint granularity are not enumerated; real time is used "
